@@ -40,40 +40,51 @@ Definition proj_of (v : val) (k : nat) : val :=
 
 Inductive lres := LVal (vs : list val) | LErr | LPanic.
 
+(* evaluation of argument lists / record fields, given the evaluator for one expression *)
+Section EvalList.
+Variable ev : aexp -> venv -> ares.
+Fixpoint eval_list (l : list aexp) (env : venv) : lres :=
+  match l with
+  | [] => LVal []
+  | a :: l' => match ev a env with
+               | AVal v => match eval_list l' env with LVal vs => LVal (v :: vs) | r => r end
+               | AErr => LErr
+               | APanic => LPanic
+               end
+  end.
+
+Inductive fres := FVal (fs : list (string * val)) | FErr | FPanic.
+Fixpoint eval_fields (l : list (string * aexp)) (env : venv) : fres :=
+  match l with
+  | [] => FVal []
+  | (f, a) :: l' => match ev a env with
+                    | AVal v => match eval_fields l' env with FVal fs => FVal ((f, v) :: fs) | r => r end
+                    | AErr => FErr
+                    | APanic => FPanic
+                    end
+  end.
+End EvalList.
+
 Section Eval.
 Variable natf : string -> list val -> ares.
 
+Definition of_lres (r : lres) (k : list val -> ares) : ares :=
+  match r with LVal vs => k vs | LErr => AErr | LPanic => APanic end.
+
 Fixpoint eval (e : aexp) (env : venv) {struct e} : ares :=
-  let evs := fix evs (l : list aexp) : lres :=
-    match l with
-    | [] => LVal []
-    | a :: l' => match eval a env with
-                 | AVal v => match evs l' with LVal vs => LVal (v :: vs) | r => r end
-                 | AErr => LErr
-                 | APanic => LPanic
-                 end
-    end in
   match e with
   | AVar x => AVal (lookup x env)
   | AField e1 f => match eval e1 env with AVal v => AVal (field_of v f) | r => r end
   | AProj e1 k => match eval e1 env with AVal v => AVal (proj_of v k) | r => r end
-  | ACon name args => match evs args with LVal vs => AVal (VCon name vs) | LErr => AErr | LPanic => APanic end
+  | ACon name args => of_lres (eval_list eval args env) (fun vs => AVal (VCon name vs))
   | ARec name fields =>
-    match (fix efs (l : list (string * aexp)) : option (option (list (string * val))) :=
-             match l with
-             | [] => Some (Some [])
-             | (f, a) :: l' => match eval a env with
-                               | AVal v => match efs l' with Some (Some fs) => Some (Some ((f, v) :: fs)) | r => r end
-                               | AErr => Some None
-                               | APanic => None
-                               end
-             end) fields with
-    | Some (Some fs) => AVal (VRec name fs)
-    | Some None => AErr
-    | None => APanic
+    match eval_fields eval fields env with
+    | FVal fs => AVal (VRec name fs)
+    | FErr => AErr
+    | FPanic => APanic
     end
-  | ATuple es => match evs es with LVal vs => AVal (VTuple vs) | LErr => AErr | LPanic => APanic end
-  | AVec es => match evs es with LVal vs => AVal (VList vs) | LErr => AErr | LPanic => APanic end
+  | ATuple es => of_lres (eval_list eval es env) (fun vs => AVal (VTuple vs))
+  | AVec es => of_lres (eval_list eval es env) (fun vs => AVal (VList vs))
   | ABytes b => AVal (VBytes b)
   | ANumLit n => AVal (VNum n)
   | ABoolLit b => AVal (VBool b)
@@ -105,7 +116,7 @@ Fixpoint eval (e : aexp) (env : venv) {struct e} : ares :=
                        | AVal _ => APanic
                        | r => r
                        end
-  | ACall f args => match evs args with LVal vs => natf f vs | LErr => AErr | LPanic => APanic end
+  | ACall f args => of_lres (eval_list eval args env) (natf f)
   end.
 
 Definition act (a : action) (v : val) : ares := eval (a_body a) (bind (a_pat a) v []).
